@@ -24,13 +24,13 @@ static struct nv_state nv_state_make(const struct nv_function* f, const struct n
   struct nv_state s;
   nv_ver_counter = nv_ver_counter + 1;
   s.ver = nv_ver_counter; s.eval_ver = s.ver; s.origin = 0; s.t = 0.0;
-  s.valid = nv_nondet__Bool(); s.m_fx = nv_nondet_double(); s.dg = nv_nondet_double(); s.gtest = nv_nondet_double();
+  s.valid = nv_nondet__Bool(); s.m_fx = nv_nondet_double(); s.dg = nv_nondet_double(); s.gtest = nv_nondet_double(); s.feas = nv_nondet_double(); s.cons_ver = s.ver;
   s.m_status = NVE_solver_status_max_iters; s.m_fcalls = (int64_t)nv_ver_counter; s.m_gcalls = (int64_t)nv_ver_counter;
   return s;
 }
 static struct nv_state nv_state_default(void)
 { struct nv_state s; s.ver = 0; s.eval_ver = 0; s.origin = 0; s.valid = 1; s.m_status = NVE_solver_status_max_iters; s.m_fcalls = 0; s.m_gcalls = 0;
-  s.t = 0.0; s.m_fx = 0.0; s.dg = 0.0; s.gtest = 0.0; return s; }
+  s.t = 0.0; s.m_fx = 0.0; s.dg = 0.0; s.gtest = 0.0; s.feas = 0.0; s.cons_ver = 0; return s; }
 static double nv_state_gradient_test(const struct nv_state* s) { return s->gtest; }
 static int32_t nv_state_status(const struct nv_state* s) { return s->m_status; }
 static void nv_state_set_status(struct nv_state* s, int32_t st) { s->m_status = st; }
